@@ -1,44 +1,81 @@
-(* C01 - well-formed stepwise dendrogram (PARTIAL: shape and label order are
-   theorems; "distinct, not yet merged clusters" and "size = sum of sizes" are
-   not yet proved - see C01_full). *)
-Require Import KV.Model.Prelude KV.Model.Condensed KV.Model.Dendrogram KV.Model.Methods
-  KV.Model.State KV.Model.Linkage KV.Proofs.Shape KV.Proofs.Small KV.Proofs.DendContract.
+(* C01 - every result is a well-formed stepwise dendrogram. *)
+Require Import KV.Model.Prelude KV.Model.Condensed KV.Model.UnionFind KV.Model.Dendrogram KV.Model.Methods
+  KV.Model.State KV.Model.Primitive KV.Model.Mst KV.Model.Linkage
+  KV.Proofs.Shape KV.Proofs.Small KV.Proofs.DendContract KV.Proofs.Forest KV.Proofs.RelabelWF
+  KV.Proofs.PrimitiveWF KV.Proofs.MstWF KV.Proofs.SortProofs.
 
-(* the full statement (not proved): every Ok result is a well-formed stepwise
-   dendrogram *)
-Definition wf_dend {T} (n : nat) (steps : list (step T)) : Prop :=
-  length steps = n - 1
-  /\ forall i s, nth_error steps i = Some s ->
-       s_c1 s < s_c2 s /\ s_c2 s < n + i
-       /\ (forall j t, j < i -> nth_error steps j = Some t ->
-             s_c1 t <> s_c1 s /\ s_c2 t <> s_c1 s /\ s_c1 t <> s_c2 s /\ s_c2 t <> s_c2 s)
-       /\ s_size s = (if s_c1 s <? n then 1 else match nth_error steps (s_c1 s - n) with Some t => s_size t | None => 0 end)
-                   + (if s_c2 s <? n then 1 else match nth_error steps (s_c2 s - n) with Some t => s_size t | None => 0 end).
+(* wf_dend n steps (Proofs/RelabelWF.v): n-1 steps; step j has labels
+   c1 < c2 < n+j that occur in no earlier step, and size = csize c1 + csize c2
+   with csize l = 1 for l < n and the size recorded by step l-n otherwise. *)
 Definition C01_full : Prop :=
   forall (T : Type) (F : fops T) (p : profile) (a : algo) (meth : method) s d m n s' d' m',
-    (n < two32)%N -> run_with F p a meth s d m n = Ok (s', d', m') ->
-    wf_dend (d_obs d') (d_steps d').
+    run_with F p a meth s d m n = Ok (s', d', m') -> wf_dend (d_obs d') (d_steps d').
 
-(* proved part 1: for n observations (n < 2^32) every Ok result of every entry
-   point records n observations (0 for n <= 1) and has exactly n-1 steps *)
-Theorem C01_shape_partial : forall (T : Type) (F : fops T) (p : profile) (a : algo) (meth : method)
+(* relabel - shared by all five entry points: ANY forest of raw merge steps
+   (n-1 edges over n observations, each joining two different components when
+   processed in the given order) is turned into a well-formed dendrogram, in
+   whatever order the stable sort puts them; no panic other than the sort's NaN
+   panic; heights = the sorted heights. *)
+Theorem C01_relabel_wf : forall (T : Type) (ltb eqb : T -> T -> bool) (u : ufind) (d : dend T)
+  (sorting : bool) (steps0 : list (step T)),
+  let n := d_obs d in
+  1 <= n -> length (d_steps d) = n - 1 ->
+  (forall s, In s (d_steps d) -> s_c1 s < n /\ s_c2 s < n) ->
+  all_nontrivial eq (edges (d_steps d)) ->
+  (if sorting then sort_steps ltb eqb (d_steps d) = Ok steps0 else steps0 = d_steps d) ->
+  exists u' d', relabel ltb eqb u d sorting = Ok (u', d')
+    /\ wf_dend n (d_steps d') /\ d_obs d' = n
+    /\ map (@s_dis T) (d_steps d') = map (@s_dis T) steps0.
+Proof. exact relabel_wf. Qed.
+Print Assumptions C01_relabel_wf.
+
+(* primitive: all 7 methods, any float type whose `<` is transitive and
+   irreflexive (IEEE), both profiles, any prior state, EVERY input (ties, zeros,
+   duplicates, negative values, even NaN/inf): an Ok result is well formed *)
+Theorem C01_primitive_wf : forall (T : Type) (K : kops T) (p : profile),
+  (forall a b c, k_ltb K a b = true -> k_ltb K b c = true -> k_ltb K a c = true) ->
+  (forall a, k_ltb K a a = false) ->
+  forall meth s d m n s' d' m',
+  primitive_with K p meth s d m n = Ok (s', d', m') -> wf_dend (d_obs d') (d_steps d').
+Proof. exact primitive_wf. Qed.
+Print Assumptions C01_primitive_wf.
+
+(* mst, and hence linkage with the single method: no hypothesis at all *)
+Theorem C01_mst_wf : forall (T : Type) (K : kops T) (p : profile) s d m n s' d' m',
+  mst_with K p s d m n = Ok (s', d', m') -> wf_dend (d_obs d') (d_steps d').
+Proof. exact mst_wf. Qed.
+Print Assumptions C01_mst_wf.
+
+Theorem C01_linkage_single_wf : forall (T : Type) (F : fops T) (p : profile) s d m n s' d' m',
+  run_with F p ALinkage Single s d m n = Ok (s', d', m') -> wf_dend (d_obs d') (d_steps d').
+Proof. intros T F p s d m n s' d' m' H. exact (mst_wf _ _ _ _ _ _ H). Qed.
+Print Assumptions C01_linkage_single_wf.
+
+(* all entry points (also nnchain / generic, for which well-formedness itself
+   is not yet proved): the observation count and the number of steps *)
+Theorem C01_shape : forall (T : Type) (F : fops T) (p : profile) (a : algo) (meth : method)
   s d m n s' d' m',
   (n < two32)%N -> run_with F p a meth s d m n = Ok (s', d', m') ->
   d_obs d' = obs_of_n n /\ length (d_steps d') = obs_of_n n - 1.
 Proof. exact run_shape. Qed.
-Print Assumptions C01_shape_partial.
+Print Assumptions C01_shape.
 
-(* proved part 2: n <= 1 gives the empty dendrogram, from any state *)
 Theorem C01_empty_small : forall (T : Type) (F : fops T) (p : profile) (a : algo) (meth : method)
   (s : lstate T) (d : dend T) (n : N), (n <= 1)%N ->
   run_with F p a meth s d [] n = Ok (s, {| d_steps := []; d_obs := 0 |}, []).
 Proof. exact empty_small. Qed.
 Print Assumptions C01_empty_small.
 
-(* proved part 3: labels are stored smaller first by the two constructors the
-   algorithms use *)
-Theorem C01_labels_sorted : forall (T : Type) (s : step T) (c1 c2 : nat),
-  let s' := step_set_clusters s c1 c2 in
-  s_c1 s' = Nat.min c1 c2 /\ s_c2 s' = Nat.max c1 c2 /\ s_dis s' = s_dis s /\ s_size s' = s_size s.
-Proof. exact set_clusters_sorted. Qed.
-Print Assumptions C01_labels_sorted.
+(* consequences of wf_dend the property text lists: the last step has the size
+   of the recorded sizes' sum chain; non-vacuity on a concrete dendrogram *)
+Example C01_wf_example :
+  wf_dend 4 [{| s_c1 := 1; s_c2 := 3; s_dis := 5; s_size := 2 |};
+             {| s_c1 := 0; s_c2 := 4; s_dis := 7; s_size := 3 |};
+             {| s_c1 := 2; s_c2 := 5; s_dis := 9; s_size := 4 |}].
+Proof.
+  split; [reflexivity|]. intros j t Ht.
+  destruct j as [|[|[|j]]]; cbn in Ht; try (destruct j; discriminate); inversion Ht; subst t;
+    (split; [cbn; lia|]); (split; [cbn; lia|]); (split; [|reflexivity]);
+    intros i t' Hi Ht'; destruct i as [|[|i]]; try lia; cbn in Ht'; inversion Ht'; subst t'; cbn; lia.
+Qed.
+Print Assumptions C01_wf_example.
